@@ -574,7 +574,12 @@ func (fr *Frame) sprintf(p *preCall, fi int) Val {
 		switch {
 		case known && flags == "" && (verb == 's' || verb == 'v') && (dv.S == "String"):
 			parts = append(parts, dv.T)
-		case known && flags == "" && (verb == 's') && (dv.S == "Bytes"):
+		case known && flags == "" && (verb == 's' || verb == 'v') && dv.S != "String" && stringerPrelude(fc, dv.Typ) != nil:
+			// a fmt.Stringer is formatted through its String method (a named byte slice is not printed raw)
+			pf := stringerPrelude(fc, dv.Typ)
+			r := pf.fn(&preCall{fr: fr, st: p.st, reach: p.reach, args: []Val{dv}, resT: types.Typ[types.String], name: "String", spec: p.spec})
+			parts = append(parts, r.T)
+		case known && flags == "" && (verb == 's') && (dv.S == "Bytes") && !hasAnyStringMethod(fc, dv.Typ):
 			parts = append(parts, "(b_s "+dv.T+")")
 		case known && flags == "" && (verb == 'd' || verb == 'v') && dv.S == "Int" && isIntType(dv.Typ):
 			_, signed, _ := intBits(dv.Typ)
@@ -630,6 +635,36 @@ func hasStringMethod(fc *FnCtx, t types.Type) *ssa.Function {
 	fn := fc.W.Prog.LookupMethod(t, pkg, "String")
 	if fn != nil && len(fn.Blocks) > 0 {
 		return fn
+	}
+	return nil
+}
+
+func hasAnyStringMethod(fc *FnCtx, t types.Type) bool {
+	return stringMethodOf(fc, t) != nil
+}
+
+// stringMethodOf: the String method in the method set of t (nil when there is none; bodies may be absent)
+func stringMethodOf(fc *FnCtx, t types.Type) *ssa.Function {
+	if t == nil {
+		return nil
+	}
+	sel := types.NewMethodSet(t).Lookup(nil, "String")
+	if sel == nil {
+		return nil
+	}
+	if _, isIface := t.Underlying().(*types.Interface); isIface {
+		return nil
+	}
+	return fc.W.Prog.MethodValue(sel)
+}
+
+func stringerPrelude(fc *FnCtx, t types.Type) *preFn {
+	fn := stringMethodOf(fc, t)
+	if fn == nil {
+		return nil
+	}
+	if p, ok := staticPrelude[fn.String()]; ok {
+		return &p
 	}
 	return nil
 }
@@ -708,6 +743,11 @@ func (fr *Frame) split(p *preCall) Val {
 		fc.B.Assert(implies(and(nonEmpty, "(str.prefixof "+sep+" "+s+")", not("(str.contains (str.substr "+s+" 1 (- (str.len "+s+") 1)) "+sep+")")),
 			and(eq(n, "2"), eq("(select (s_arr "+res+") 0)", "\"\""), eq("(select (s_arr "+res+") 1)", "(str.substr "+s+" (str.len "+sep+") (- (str.len "+s+") (str.len "+sep+")))"))))
 	}
+	if fc.B.SplitRec {
+		// the input is the left-to-right join of all parts
+		fc.B.JoinFrom()
+		fc.B.Assert(eq("(join_from "+res+" "+sep+" 0)", s))
+	}
 	fc.B.Note("strings.Split: parts 0..3 and the part count up to 4 are exact (first-separator unrolling); beyond that only join/no-separator facts")
 	return Val{S: "(Slice String)", T: res, Typ: types.NewSlice(types.Typ[types.String])}
 }
@@ -717,6 +757,10 @@ func (fr *Frame) join(p *preCall) Val {
 	fc.B.DeclFun("join_str", []string{"(Slice String)", "String"}, "String")
 	a, sep := p.args[0], p.str(1)
 	t := "(join_str " + a.T + " " + sep + ")"
+	if fc.B.SplitRec {
+		fc.B.JoinFrom()
+		fc.B.Assert(eq(t, "(join_from "+a.T+" "+sep+" 0)"))
+	}
 	fc.B.Assert(and(
 		implies(eq("(s_len "+a.T+")", "0"), eq(t, "\"\"")),
 		implies(eq("(s_len "+a.T+")", "1"), eq(t, "(select (s_arr "+a.T+") 0)")),
